@@ -512,9 +512,59 @@ def _scenario_term(case, out):
             % (cap, qcap, '; '.join(table), '; '.join(ins), '; '.join(evs), mem, '; '.join(queue)))
 
 
+_REGN = ['RegModel.' + x for x in ['STB', 'SRE', 'ESR', 'ESE', 'OPER', 'OPERE', 'OPERC', 'QUES', 'QUESE', 'QUESC']]
+_KCMD = {'CLS': 'KCls', 'ESE': 'KEse', 'ESEQ': 'KEseQ', 'ESRQ': 'KEsrQ', 'OPC': 'KOpc', 'SRE': 'KSre', 'SREQ': 'KSreQ', 'STBQ': 'KStbQ', 'OPEREVQ': 'KOperEvQ',
+         'OPERCONDQ': 'KOperCondQ', 'OPERENQ': 'KOperEnQ', 'OPEREN': 'KOperEn', 'QUESEVQ': 'KQuesEvQ', 'QUESCONDQ': 'KQuesCondQ', 'QUESENQ': 'KQuesEnQ',
+         'QUESEN': 'KQuesEn', 'PRESET': 'KPreset', 'ERRNEXTQ': 'KErrNextQ', 'ERRCOUNTQ': 'KErrCountQ'}
+
+
+def _reg_term(case, out):
+    """a REG line (context with error callback) and the model driver's answer as an equation about RegReplay.rrun"""
+    parts = case.split('|')
+    if not parts[0].startswith('REG '):
+        return None
+    ops = []
+    for p in parts[1:]:
+        f = p.split(' ')
+        spec = f[2].split(':') if f[0] == 'M' and len(f) > 2 else None
+        if f[0] == 'W':
+            ops.append('RegReplay.RW %s %d' % (_REGN[int(f[1])], int(f[2]) & 0xFFFFFFFF))
+        elif f[0] in ('T', 'U'):
+            ops.append('RegReplay.R%s %s %d' % (f[0], _REGN[int(f[1])], int(f[2])))
+        elif f[0] == 'P':
+            ops.append('RegReplay.RP (%d)%%Z' % int(f[1]))
+        elif f[0] in ('O', 'C', 'L'):
+            ops.append('RegReplay.R' + f[0])
+        elif spec and spec[0] == 'K' and spec[1] in _KCMD:
+            ops.append('RegReplay.RK (CmdModel.%s %d)' % (_KCMD[spec[1]], int(spec[2])) if len(spec) > 2 else 'RegReplay.RK CmdModel.%s' % _KCMD[spec[1]])
+        elif spec and spec[0] == 'W':
+            ops.append('RegReplay.RW %s %d' % (_REGN[int(spec[1])], int(spec[2])))
+        elif spec and spec[0] in ('L', 'O', 'Z') and len(spec) == 1:
+            ops.append('RegReplay.R' + spec[0])
+        else:
+            return None
+    steps, evs, resp = [], [], 'None'
+    for t in out.split(' ')[1:]:
+        if t[:1] == 'E':
+            evs.append('RegModel.EvE (%d)%%Z' % int(t[1:]))
+        elif t[:1] == 'Q':
+            evs.append('RegModel.EvQ %d' % int(t[1:]))
+        elif t[:1] == 'W':
+            resp = 'Some %d' % int(unhx(t[1:]).decode().strip())
+        elif t[:1] == 'S' and ';' in t:
+            regs, q = t[1:].split(';')
+            steps.append('([%s], %s, ([%s], (%d)%%Z))' % ('; '.join(evs), resp, '; '.join(regs.split(',')), int(q)))
+            evs, resp = [], 'None'
+        else:
+            return None
+    if len(steps) != len(ops):
+        return None
+    return 'RegReplay.rrun (RegReplay.rinit %s) [%s] = [%s]' % (parts[0].split(' ')[1], '; '.join(ops), '; '.join(steps))
+
+
 def coq_crosscheck(tag, cases, model_outs, limit=60):
     """Re-evaluate a sample of cases with vm_compute inside Coq and require the results the extracted OCaml code
-    printed (keeps extraction and the OCaml driver honest).  Supports I2S, MATCH, RERR lines and scenario (S) lines without L inputs.  Returns (n, error or '')."""
+    printed (keeps extraction and the OCaml driver honest).  Supports I2S, MATCH, RERR lines, REG histories and scenario (S) lines without L inputs.  Returns (n, error or '')."""
     ex = []
     sc = []
     step = max(1, len(cases) // limit)
@@ -537,6 +587,10 @@ def coq_crosscheck(tag, cases, model_outs, limit=60):
         elif f[0] == 'RERR' and g[0] == 'RERR' and g[1].startswith('W'):
             info = 'None' if f[2] == '-' else '(Some %s)' % _zl(unhx(f[2]))
             ex.append('FmtModel.result_error (%d) (Glue.descz (%d)) %s Generated.gen_desc_max = %s' % (int(f[1]), int(f[1]), info, _zl(unhx(g[1][1:]))))
+        elif f[0] == 'REG' and g[0] == 'REG':
+            t = _reg_term(c, o)
+            if t:
+                ex.append('(' + t + ')%N')
         elif f[0] == 'S' and g[0].startswith('S') and not any(p.startswith('L ') for p in c.split('|')):
             t = _scenario_term(c, o)
             if t:
@@ -545,14 +599,14 @@ def coq_crosscheck(tag, cases, model_outs, limit=60):
     ex += sc
     if not ex:
         return 0, ''
-    res, log = coq_build(['Replay.vo', 'Glue.vo', 'FmtModel.vo', 'MatchModel.vo'])      # everything the scratch file requires, up to date
+    res, log = coq_build(['Replay.vo', 'Glue.vo', 'FmtModel.vo', 'MatchModel.vo', 'RegReplay.vo'])      # everything the scratch file requires, up to date
     if not all(res.values()):
         return len(ex), 'coq/Replay.v does not build: ' + log[-400:]
     d = os.path.join(BUILD, 'stmt')
     os.makedirs(d, exist_ok=True)
     fn = os.path.join(d, 'Cross_%s.v' % tag)
     with open(fn, 'w') as fh:
-        fh.write('From Coq Require Import Bool List NArith ZArith.\nFrom M Require FmtModel MatchModel Glue Generated Replay.\nFrom M Require Import ParserModel.\nImport ListNotations.\nOpen Scope Z_scope.\n')
+        fh.write('From Coq Require Import Bool List NArith ZArith.\nFrom M Require FmtModel MatchModel Glue Generated Replay RegReplay.\nFrom M Require Import ParserModel.\nImport ListNotations.\nOpen Scope Z_scope.\n')
         for i, e in enumerate(ex):
             fh.write('Example x%d : %s.\nProof. vm_compute. reflexivity. Qed.\n' % (i, e))
     rc, out, err, _ = sh(['coqc', '-Q', COQ, 'M', fn], 600, cwd=d)
